@@ -27,6 +27,11 @@ Script_Links == <<
     Cr("block", 0, "n2", 12), Cr("array", 12, "n1", 13), Cr("group", 12, "n1", 14) >>
 Limit_Links == L(2, 2, 3, 1, 1, 1, 2, 2, 0)
 
+\* link / unlink / link again on a small block (a link list that becomes empty in between)
+Script_Small == << Cr("block", 0, "n1", 1), Cr("array", 1, "n1", 2), Cr("array", 1, "n2", 3), Cr("group", 1, "n1", 4),
+                   Cr("tag", 1, "n1", 5), Cr("source", 1, "n1", 6) >>
+Limit_Small == L(1, 1, 2, 1, 0, 0, 1, 0, 0)
+
 \* C20: a block with internal structure (group list, tag reference + feature, multi-tag with positions/extents,
 \* nested sources linked from an array), a nested section with a property, a second (empty) block as destination
 LA(o, l, x) == [name |-> "LinkAppend", o |-> o, l |-> l, x |-> x, out |-> "ok"]
